@@ -295,6 +295,8 @@ type SRun struct {
 	Res    []OpResult
 	Snaps  []Snap
 	Extras []string
+	API      *httpAPI // non-nil: requests and reads go through the v2 HTTP API (TIE-H)
+	HTTPDiff []string
 }
 
 func newSRun(mode string) *SRun {
@@ -434,11 +436,26 @@ func (sr *SRun) extra() string {
 
 func (sr *SRun) Step(so SOp) OpResult {
 	sr.St.PG.Clock = pgsem.TS(so.Op.Now)
-	res := sr.exec(so)
+	var res OpResult
+	if sr.API != nil {
+		res = sr.API.runSOp("l1", so)
+	} else {
+		res = sr.exec(so)
+	}
 	sr.Ops = append(sr.Ops, so)
 	sr.Res = append(sr.Res, res)
 	if res.Panic == "" {
-		sr.Snaps = append(sr.Snaps, sr.St.Snapshot(sr.ctx, sr.ctrl, "l1", allOn))
+		cs := sr.St.Snapshot(sr.ctx, sr.ctrl, "l1", allOn)
+		if sr.API != nil {
+			hs := sr.St.SnapshotHTTP(sr.API, "l1", allOn)
+			if hs.Err != "" {
+				sr.HTTPDiff = append(sr.HTTPDiff, fmt.Sprintf("after operation %d: %s [http-read-error]", len(sr.Ops), hs.Err))
+			} else if cs.sx() != hs.sx() || fmt.Sprint(cs.Agg) != fmt.Sprint(hs.Agg) {
+				sr.HTTPDiff = append(sr.HTTPDiff, fmt.Sprintf("after operation %d the v2 read endpoints and the controller reads differ [http-read-differs]: http %s / controller %s", len(sr.Ops), diffAt(hs.sx(), cs.sx()), diffAt(cs.sx(), hs.sx())))
+			}
+			cs = hs
+		}
+		sr.Snaps = append(sr.Snaps, cs)
 		sr.Extras = append(sr.Extras, sr.extra())
 	}
 	return res
@@ -449,7 +466,11 @@ func (sr *SRun) caseSx() string {
 	for i, o := range sr.Ops {
 		s[i] = o.sx()
 	}
-	return L("shist", sr.Mode, L(s...))
+	head := "shist"
+	if sr.API != nil {
+		head = "shisth"
+	}
+	return L(head, sr.Mode, L(s...))
 }
 func (sr *SRun) traceSx() string {
 	var steps []string
@@ -633,14 +654,26 @@ func cmdSchemaHist(args []string) int {
 		if nok >= 3 {
 			out.Stats["distinct_nontrivial"]++
 		}
-		if msg := monitorC29(sr); msg != "" {
+		if sr.API == nil { // (the monitor reads Go values an HTTP answer does not carry)
+			if msg := monitorC29(sr); msg != "" {
+				out.Violation("C29", cs, msg)
+			}
+		}
+		for _, msg := range sr.HTTPDiff {
 			out.Violation("C29", cs, msg)
 		}
+	}
+	open := func(mode string) *SRun {
+		sr := newSRun(mode)
+		if f.Extra["via"] == "http" {
+			sr.API = newHTTPAPI(sr.St)
+		}
+		return sr
 	}
 	if f.Replay != "" {
 		for _, line := range ReadLines(f.Replay) {
 			mode, ops := parseSHistCase(line)
-			sr := newSRun(mode)
+			sr := open(mode)
 			for _, o := range ops {
 				if sr.Step(o).Panic != "" {
 					break
@@ -657,7 +690,7 @@ func cmdSchemaHist(args []string) int {
 		if rr.Chance(45) {
 			mode = "audit"
 		}
-		sr := newSRun(mode)
+		sr := open(mode)
 		genSHistory(rr, maxOps, sr.Step)
 		finish(sr)
 	}
